@@ -57,6 +57,8 @@ int main(int argc, char** argv) {
   else if (!strcmp(profile, "big")) { w_alloc = 45; w_free = 35; w_realloc = 6; w_collect = 8; w_visit = 2; w_heap = 2; big_sizes = 1; }
   else if (!strcmp(profile, "bulk")) { w_bulk = 14; w_alloc = 35; w_free = 30; w_realloc = 6; w_visit = 3; w_collect = 4; w_heap = 0; max_size = 200000; }
   else if (!strcmp(profile, "c12")) { w_visit = 12; w_heap = 8; w_collect = 2; w_alloc = 40; w_free = 30; }
+  else if (!strcmp(profile, "c16w")) { w_visit = 6; w_alloc = 60; w_free = 34; w_realloc = 0; w_write = 0; w_query = 0; w_heap = 0; w_collect = 0; w_expand = 0; w_chain = 0; w_bad = 0; w_bulk = 0;
+                                       max_size = 1100; }      /* pages of many small blocks with scattered holes, walked often (the walk's block arithmetic) */
   else { fprintf(stderr, "unknown profile %s\n", profile); return 2; }
 
   mi_heap_t* bh = mi_heap_get_backing();
@@ -96,6 +98,28 @@ int main(int argc, char** argv) {
       if (s2 >= 0) op_free_slot(s2, FR_free);
       if (b1 >= 0) op_free_slot(b1, FR_free);
       op_alloc_ex(A_malloc, 5000, 0, 0, 0, 0);
+    }
+    op_checkall(); ops = 0;
+  }
+  if (scenario && !strcmp(scenario, "walkholes")) {
+    /* per block size: several pages of many blocks are filled, holes are punched in different patterns (so that groups of 64 blocks are full,
+       partially free and empty), and the heap is walked: exactly the live blocks (C12 / the block arithmetic of the walk, C16) */
+    static const size_t bss[] = {16, 48, 320};
+    for (int b = 0; b < 3; b++) {
+      int mine[3200]; int nm = 0; int n = (bss[b] <= 48 ? 520 : 330);
+      for (int j = 0; j < n; j++) { int s_ = op_alloc_ex(A_malloc, bss[b], 0, 0, 0, 0); if (s_ >= 0) mine[nm++] = s_; }
+      op_visit(0, 0);
+      for (int pass = 0; pass < 2; pass++) {
+        for (int j = 0; j < nm; j++) if (mine[j] >= 0) {
+          int drop = (pass == 0) ? (j % 97 == 5 || (j / 64) % 5 == 3)            /* single holes; every fifth group of 64 emptied */
+                   : (pass == 1) ? (vf_randn(4) == 0)                            /* scattered */
+                                 : (j % 2 == 0);                                 /* half of what is left */
+          if (drop) { op_free_slot(mine[j], FR_free); mine[j] = -1; }
+        }
+        op_visit(0, 0);
+      }
+      for (int j = 0; j < nm; j++) if (mine[j] >= 0) op_free_slot(mine[j], FR_free);
+      op_visit(0, 0);
     }
     op_checkall(); ops = 0;
   }
